@@ -167,6 +167,56 @@ pub fn strategy() -> BoxedStrategy<Case> {
     (gen::term(c06::opts()), neutral_edit(), gen::tape(), gen::tape()).prop_map(|(a, edit, t1, t2)| Case { a, edit, t1, t2 }).boxed()
 }
 
+/// Adversarial component pairs: words whose digests (the library's own `Hash` under the keyless
+/// `DefaultHasher`, which is what a per-component digest of an order-independent combiner would be)
+/// agree in their low 32, high 32, low 16 or low 8 bits — found by a birthday search over 400 000
+/// names. A combiner that orders, buckets or truncates component digests shows only on such pairs.
+pub fn digest_collisions() -> Vec<Case> {
+    const N: usize = 400_000;
+    let digest = |name: &str| {
+        let mut h = DefaultHasher::new();
+        Term::Word(name.to_string()).hash(&mut h);
+        h.finish()
+    };
+    let ds: Vec<u64> = (0..N).map(|i| digest(&format!("w{i}"))).collect();
+    let mut pairs: Vec<(usize, usize)> = vec![];
+    let keys: [(&dyn Fn(u64) -> u64, usize); 4] = [(&|d| d & 0xffff_ffff, 12), (&|d| d >> 32, 12), (&|d| d & 0xffff, 6), (&|d| d & 0xff, 4)];
+    for (key, want) in keys.iter() {
+        let mut seen: HashMap<u64, usize> = HashMap::new();
+        let mut found = 0;
+        for (i, d) in ds.iter().enumerate() {
+            if let Some(j) = seen.insert(key(*d), i) {
+                pairs.push((j, i));
+                found += 1;
+                if found >= *want {
+                    break;
+                }
+            }
+        }
+    }
+    let mut out = vec![];
+    let tapes: [Vec<u8>; 3] = [vec![1, 1, 1, 1, 1, 1], vec![2, 3, 5, 7, 11, 13, 17], vec![9, 9, 200, 3, 77, 1, 0, 4]];
+    for (i, j) in pairs {
+        let a = D::word(&format!("w{i}"));
+        let b = D::word(&format!("w{j}"));
+        let c = D::word("c");
+        let shapes = vec![
+            D::node(Sim, vec![a.clone(), b.clone()]),
+            D::node(Equ, vec![b.clone(), a.clone()]),
+            D::node(SetExt, vec![a.clone(), b.clone()]),
+            D::node(Conj, vec![a.clone(), c.clone(), b.clone()]),
+            D::node(SetInt, vec![D::node(IntExt, vec![a.clone(), b.clone()]), c.clone()]),
+            D::node(Product, vec![D::node(Par, vec![b.clone(), a.clone()]), D::node(EquConc, vec![a.clone(), b.clone()])]),
+        ];
+        for sh in shapes {
+            for (k, t) in tapes.iter().enumerate() {
+                out.push(Case { a: sh.clone(), edit: Edit::SwapKids(0, 0), t1: t.clone(), t2: tapes[(k + 1) % 3].clone() });
+            }
+        }
+    }
+    out
+}
+
 pub fn streams() -> Vec<Box<dyn AnyStream>> {
     vec![
         Box::new(Stream::<u8> {
@@ -175,6 +225,13 @@ pub fn streams() -> Vec<Box<dyn AnyStream>> {
             thorough: 0,
             source: Source::Enum(Box::new(|_| Box::new(vec![0u8].into_iter()))),
             check: Box::new(check_universe),
+        }),
+        Box::new(Stream::<Case> {
+            name: "digest-collisions",
+            quick: 0,
+            thorough: 0,
+            source: Source::Enum(Box::new(|_| Box::new(digest_collisions().into_iter()))),
+            check: Box::new(check),
         }),
         Box::new(Stream::<Case> {
         name: "equal-pairs",
